@@ -103,6 +103,9 @@ func (s *PicTimingAvcSEI) Payload() []byte {
 // String returns string representation of PicTiming SEI1.
 func (s *PicTimingAvcSEI) String() string {
 	msgType := SEIType(s.Type())
+	if len(s.Clocks) == 0 {
+		return fmt.Sprintf("%s, size=%d", msgType, s.Size())
+	}
 	msg := fmt.Sprintf("%s, size=%d, time=%s", msgType, s.Size(), s.Clocks[0].String())
 	if len(s.Clocks) > 1 {
 		for i := 1; i < len(s.Clocks); i++ {
